@@ -13,6 +13,7 @@ import Chrono.Proofs.Rfc2822InbandL
 import Chrono.Proofs.Rfc2822ItemL
 import Chrono.Proofs.Rfc2822RejectL
 import Chrono.Proofs.Rfc2822UniqueL
+import Chrono.Proofs.Rfc2822TrailL
 import Chrono.Extracted.Rfc2822
 
 namespace Chrono.Props.C11
@@ -191,6 +192,27 @@ theorem invalid_rejected (s : List Nat) (f : Fields) (h : Rfc2822 s f) (hv : ¬ 
   cases r with
   | error e => exact ⟨e, hr⟩
   | ok z => exact absurd ((accepts_iff_valid s f h).mp ⟨z, hr⟩) hv
+
+/-- **trailing_white_space_rejected** (the boundary of the specification, as a theorem about the code).
+ANY text that ends in one of the 25 white-space characters is rejected by value: no string of the
+relation ends in white space (each ends in the last digit / letter of its zone or the `)` of its last
+comment), and the reader accepts nothing outside the relation (`reader_sound`).  This is the
+observation recorded in the specification header — the grammar comment in parse.rs allows trailing
+white space, the code does not, the property does not ask for it. -/
+theorem trailing_white_space_rejected (s w : List Nat) (hw : w ∈ WS) :
+    ∃ e, Rfc2822.parse_from_rfc2822 (s ++ w) = .ok (.error e) := by
+  obtain ⟨r, hr⟩ := reader_total (s ++ w)
+  cases r with
+  | error e => exact ⟨e, hr⟩
+  | ok z =>
+    exfalso
+    obtain ⟨f, hf, _, _⟩ := reader_sound (s ++ w) z hr
+    obtain ⟨b, hb, he⟩ := rfc2822_last hf
+    obtain ⟨b', hb', hne⟩ := ws_last_not_end w hw
+    rw [getLast_append_some s w hb'] at hb
+    injection hb with hb
+    subst hb
+    exact hne he
 
 /-! ## the writer's standard form and the round trip -/
 
